@@ -116,6 +116,13 @@ pub trait Prop: Sync + Send + 'static {
         Vec::new()
     }
     /// upper bound for the number of harness workers (C19 needs 1: its cases own real threads and must not interfere)
+    /// Follow-up cases derived from the previous and the current generated case of a worker
+    /// (e.g. the current dividend with the previous divisor). They are evaluated on the same
+    /// thread right after the previous case, so that state a defective implementation keeps
+    /// between calls (caches, memoised operands) meets a related second call.
+    fn mix(&self, _prev: &Self::Case, _cur: &Self::Case) -> Vec<Self::Case> {
+        Vec::new()
+    }
     fn max_jobs(&self) -> Option<usize> {
         None
     }
@@ -738,6 +745,8 @@ pub fn run_prop<P: Prop>(prop: P, opts: &Opts) -> ! {
             let invocations = std::cell::Cell::new(0u64);
             let window: RefCell<std::collections::VecDeque<P::Case>> = RefCell::new(std::collections::VecDeque::with_capacity(HISTORY_WINDOW + 1));
             let first_history: RefCell<Vec<P::Case>> = RefCell::new(Vec::new());
+            let prev_case: RefCell<Option<P::Case>> = RefCell::new(None);
+            let mixed_fail: RefCell<Option<(P::Case, Vec<Failure>)>> = RefCell::new(None);
             let cfg = Config {
                 cases: per as u32,
                 rng_seed: RngSeed::Fixed(seed),
@@ -754,6 +763,46 @@ pub fn run_prop<P: Prop>(prop: P, opts: &Opts) -> ! {
                     tick();
                 }
                 debug_set_current(w, || serde_json::to_string(&case).unwrap_or_default());
+                if failed.get() && mixed_fail.borrow().is_some() {
+                    // a follow-up case failed: it is not a value of the strategy, nothing to shrink
+                    return Ok(());
+                }
+                // every 4th case: follow-up cases built from the previous and the current case
+                if !failed.get() && invocations.get() % 4 == 0 {
+                    let mixes = match prev_case.borrow().as_ref() {
+                        Some(p) => prop.mix(p, &case),
+                        None => Vec::new(),
+                    };
+                    for m in mixes {
+                        {
+                            let mut wd = window.borrow_mut();
+                            if wd.len() == HISTORY_WINDOW {
+                                wd.pop_front();
+                            }
+                            wd.push_back(m.clone());
+                        }
+                        match catch(|| eval_case(&*prop, &known, &m, Some(&mut stats.borrow_mut()))) {
+                            Ok(real) if real.is_empty() => {}
+                            Ok(real) => {
+                                *first_history.borrow_mut() = window.borrow().iter().cloned().collect();
+                                failed.set(true);
+                                let sig = real[0].sig.clone();
+                                *mixed_fail.borrow_mut() = Some((m, real));
+                                return Err(TestCaseError::fail(sig));
+                            }
+                            Err(msg) => {
+                                println!(
+                                    "INCONCLUSIVE: harness/oracle panic (not a verdict about the code): {msg}\n  case: {}",
+                                    serde_json::to_string(&m).unwrap_or_default()
+                                );
+                                std::process::exit(2);
+                            }
+                        }
+                    }
+                }
+                if !failed.get() {
+                    *prev_case.borrow_mut() = Some(case.clone());
+                }
                 if !failed.get() {
                     let mut wd = window.borrow_mut();
                     if wd.len() == HISTORY_WINDOW {
@@ -792,7 +841,25 @@ pub fn run_prop<P: Prop>(prop: P, opts: &Opts) -> ! {
             match res {
                 Ok(()) => {}
                 Err(TestError::Fail(_, min_case)) => {
-                    let real = eval_case(&*prop, &known, &min_case, None);
+                    // a failing follow-up case replaces the (passing) generated case it was derived from
+                    let mixed = mixed_fail.borrow_mut().take();
+                    let (min_case, real) = match mixed {
+                        Some((m, real0)) => match eval_history(&prop, &known, std::slice::from_ref(&m)) {
+                            Some((_, real)) => (m, real),          // fails alone on a fresh thread
+                            None => {
+                                let h = first_history.borrow().clone();
+                                if eval_history(&prop, &known, &h).is_some() {
+                                    (m, Vec::new())                // needs its history (handled below)
+                                } else {
+                                    (m, real0)                     // report what was observed
+                                }
+                            }
+                        },
+                        None => {
+                            let real = eval_case(&*prop, &known, &min_case, None);
+                            (min_case, real)
+                        }
+                    };
                     let mut hist: Vec<P::Case> = Vec::new();
                     if real.is_empty() {
                         // not reproducible on its own: does the window of preceding cases reproduce it?
